@@ -15,6 +15,9 @@ use std::cmp::Ordering;
 use std::io::{Error, ErrorKind};
 use std::sync::Arc;
 use std::time::Duration;
+#[cfg(saito_verif)]
+use crate::core::verif_lock::RwLock;
+#[cfg(not(saito_verif))]
 use tokio::sync::RwLock;
 
 #[derive(Clone, Debug)]
